@@ -338,7 +338,7 @@ func execSock(c SockCase, bound time.Duration) (err error) {
 			}
 		}
 		cancel()
-		if n := svc.VerifActiveConnections(); n != 0 {
+		if n := activeConns(svc); n != 0 {
 			return fmt.Errorf("%sactive-connection count %d after the serving call returned", pre, n)
 		}
 		if lateDialAnswered(addr, vendor) {
